@@ -12,7 +12,8 @@ SUITE_NAMES = ["fast-histories-enumerated", "fast-histories-random"]
 ASSUMPTIONS = ["consecutive messages on one stream carry distinct sequence counters (as the property states)",
                "a message's first frame arrives before its other frames and is not itself duplicated"]
 TRUSTED_EXTRA = ["C04: hand models Fast/FastKeyed tied by differential runs over enumerated and random frame histories"]
-KEYS = [(130816, 1, 255), (130816, 2, 255), (130816, 1, 7), (126720, 1, 255)]
+# streams differ in PGN (incl. neighbours inside one 256-block of broadcast PGNs, and PGNs that differ only in the data page bit), source or destination
+KEYS = [(130816, 1, 255), (130816, 2, 255), (130816, 1, 7), (126720, 1, 255), (130817, 1, 255), (129029, 1, 255), (129038, 1, 255), (126720, 1, 7), (61184, 1, 7), (130816, 255, 1)]
 
 
 def problem_relevant(p):
@@ -78,6 +79,7 @@ def _histories(ctx, rnd, n_random):
     # random multi-stream histories
     for _ in range(n_random):
         streams = []
+        kk = rnd.sample(range(len(KEYS)), 4)
         for k in range(rnd.choice([1, 2, 3, 4])):
             seq = rnd.randrange(8)
             frames = []
@@ -85,7 +87,7 @@ def _histories(ctx, rnd, n_random):
                 _, _, arr = gen_segment(rnd, seq, rnd.choice([0, 3, 6, 7, 8, 13, 14, 20, 21, 40]), rnd.choice(["order", "perm", "dup", "loss", "mix"]))
                 frames += arr
                 seq = (seq + rnd.choice([1, 1, 1, 3])) % 8
-            streams.append([(k, f) for f in frames])
+            streams.append([(kk[k], f) for f in frames])
         # random interleaving preserving per-stream order
         h = []
         idx = [0] * len(streams)
@@ -138,6 +140,7 @@ def search(ctx, broken, corr_broken):
         # one or two streams, property-disciplined segments
         nstreams = rnd.choice([1, 2])
         segs = []
+        ks = rnd.sample(range(len(KEYS)), nstreams) if trial % 2 else list(range(nstreams))
         for k in range(nstreams):
             seq = rnd.randrange(8)
             ss = []
@@ -149,10 +152,10 @@ def search(ctx, broken, corr_broken):
             n += 1
             # isolated run of stream k
             d = harness.fast_decoder()
-            got = [harness.fast_feed(d, KEYS[k], f)[0] for (_, _, arr) in segs[k] for f in arr]
+            got = [harness.fast_feed(d, KEYS[ks[k]], f)[0] for (_, _, arr) in segs[k] for f in arr]
             exp = monitor(segs[k])
             if got != exp:
-                return [_viol("exactness", [(k, f) for (_, _, arr) in segs[k] for f in arr], exp, got)]
+                return [_viol("exactness", [(ks[k], f) for (_, _, arr) in segs[k] for f in arr], exp, got)]
         if nstreams == 2:
             a = [(0, f) for (_, _, arr) in segs[0] for f in arr]
             b = [(1, f) for (_, _, arr) in segs[1] for f in arr]
@@ -165,19 +168,19 @@ def search(ctx, broken, corr_broken):
             d = harness.fast_decoder()
             got = {0: [], 1: []}
             for k, f in h:
-                got[k].append(harness.fast_feed(d, KEYS[k], f)[0])
+                got[k].append(harness.fast_feed(d, KEYS[ks[k]], f)[0])
             for k in (0, 1):
                 exp = monitor(segs[k])
                 if got[k] != exp:
-                    return [_viol("interleaving", h, exp, got[k])]
+                    return [_viol("interleaving", [(ks[j], f) for j, f in h], exp, got[k], stream=ks[k])]
     LAST_SEARCH_CANDIDATES = n
     return []
 
 
-def _viol(kind, history, exp, got):
+def _viol(kind, history, exp, got, stream=None):
     return {"key": f"C04/{kind}/{common.short_hash([(k, f.hex()) for k, f in history])}",
-            "what": f"{kind}: expected deliveries {exp} but the decoder returned {got}",
-            "replay": {"kind": "fast-history", "history": [[k, f.hex()] for k, f in history], "expected": exp, "stream": history[0][0] if kind == "exactness" else None}}
+            "what": f"{kind}: expected deliveries {exp} but the decoder returned {got}" + (f" for stream {KEYS[stream]}" if stream is not None else ""),
+            "replay": {"kind": "fast-history", "history": [[k, f.hex()] for k, f in history], "expected": exp, "stream": history[0][0] if kind == "exactness" else stream}}
 
 
 def replay(rp):
